@@ -687,7 +687,8 @@ type gateCase struct {
 	Step    int64
 }
 
-var gateKinds = []string{"self", "cycle", "chain", "missing", "not-allowed", "not-allowed-nil-fs-canary", "via-generate-not-allowed", "nested-generate", "generate-limit", "generate-in-include-depth", "generate-overflow"}
+var gateKinds = []string{"self", "cycle", "chain", "missing", "not-allowed", "not-allowed-nil-fs-canary", "via-generate-not-allowed", "nested-generate", "generate-limit", "generate-in-include-depth", "generate-overflow",
+	"generate-include-uses-fs", "nested-generate-via-include"}
 
 func genGate(t *rapid.T) gateCase {
 	c := gateCase{Kind: rapid.SampledFrom(gateKinds).Draw(t, "kind")}
@@ -726,6 +727,27 @@ func eachGate(emit func(gateCase)) {
 			}
 		}
 	}
+}
+
+// Known findings around $INCLUDE inside a $GENERATE expansion.
+const (
+	kGenFS     = "generate-include-ignores-fs"
+	kNestedInc = "nested-generate-via-include"
+)
+
+const nestedBody = "$GENERATE 1-2 inner$ 300 IN A 10.7.7.$\n"
+
+var nestedPath string
+
+// nestedFile is a real file with a $GENERATE in it.
+func nestedFile() string {
+	if nestedPath == "" {
+		nestedPath = filepath.Join(filepath.Dir(canary()), "nested.db")
+		if err := os.WriteFile(nestedPath, []byte(nestedBody), 0o644); err != nil {
+			panic(err)
+		}
+	}
+	return nestedPath
 }
 
 var canaryPath string
@@ -831,6 +853,34 @@ func checkGate(c gateCase) error {
 		if c.Allowed {
 			wantRecs++
 		}
+	case "generate-include-uses-fs":
+		// includes are allowed and an include FS is set: an $INCLUDE that comes out of a
+		// $GENERATE expansion must be served by that FS like any other, not by the real file
+		// system. The path names a real file (the canary) that the FS does not have.
+		if pbt.Known(kGenFS) {
+			pbt.Excluded(kGenFS)
+			pbt.Note(nil, false, "gate:"+c.Kind+"/excluded")
+			return nil
+		}
+		body = "$GENERATE 1-1 $$INCLUDE " + canary() + "\n"
+		wantRecs, forbidden = np, "canary."
+		maxOpens = 1
+	case "nested-generate-via-include":
+		// the expansion of a $GENERATE includes a file that has a $GENERATE of its own: nesting
+		// through an include. The file exists both in the real file system and in the FS.
+		if pbt.Known(kNestedInc) {
+			pbt.Excluded(kNestedInc)
+			pbt.Note(nil, false, "gate:"+c.Kind+"/excluded")
+			return nil
+		}
+		cfg.UseFS = c.Allowed
+		if !cfg.UseFS {
+			// the only place where includes are allowed without an FS: the path is absolute and
+			// names the harness's own file
+		}
+		files[strings.TrimLeft(nestedFile(), "/")] = nestedBody
+		body = "$GENERATE 1-2 $$INCLUDE " + nestedFile() + "\n"
+		wantRecs, forbidden = -1, "inner"
 	case "generate-in-include-depth":
 		// a $GENERATE that expands to $INCLUDE of a chain, includes allowed but no FS for the
 		// sub-parser: only the depth accounting and the gate are asserted via the safety oracle
@@ -888,10 +938,6 @@ var typeFaults = []string{"close-end", "close-mid", "quote-end", "open-end", "cl
 
 // Known finding: the RDATA loops of some types swallow the lexer's error token.
 const kSwallowed = "swallowed-lexer-error"
-
-// swallowTypes are the types whose RDATA readers skip the lexer's error token on the pinned tree
-// (excluded from the enumeration while the finding is listed and reproduces).
-var swallowTypes = map[string]bool{}
 
 func faultText(c typeFaultCase) (string, bool) {
 	sm, ok := zm.SampleByName(c.Sample)
@@ -967,9 +1013,12 @@ func eachTypeFault(emit func(typeFaultCase)) {
 // whose RDATA is read by a loop "until newline or end of input" that does not look at the
 // lexer's error flag, with a fault the lexer reports through that flag.
 func swallowsOnPinnedTree(sample, fault string) bool {
+	end := fault == "close-end" || fault == "close-open-end"
 	switch sample {
-	case "LOC", "CSYNC", "NSEC", "NXT", "NSEC3", "HIP", "SVCB", "HTTPS", "APL":
-		return fault == "close-end" || fault == "close-open-end" || fault == "close-mid"
+	case "NSEC", "NXT", "APL":
+		return end || fault == "close-mid"
+	case "LOC", "CSYNC", "NSEC3", "HIP", "SVCB", "HTTPS":
+		return end
 	}
 	return false
 }
@@ -983,6 +1032,39 @@ func init() {
 		_, viol := runParser(files, parserCfg{File: "g.db", Origin: "example."}, nil)
 		if viol != nil {
 			return fmt.Errorf("%s", strings.SplitN(viol.Error(), "\n", 2)[0])
+		}
+		return nil
+	})
+	pbt.Probe(kSwallowed, func() error {
+		c := typeFaultCase{Sample: "LOC", Fault: "close-end"}
+		text, _ := faultText(c)
+		if err := evalTypeFault(c, text); err != nil {
+			return fmt.Errorf("%s", strings.SplitN(err.Error(), "\n", 2)[0])
+		}
+		return nil
+	})
+	pbt.Probe(kGenFS, func() error {
+		files := extraFiles()
+		files["top.db"] = "$GENERATE 1-1 $$INCLUDE " + canary() + "\n"
+		out, viol := runParser(files, parserCfg{File: "top.db", Origin: "example.", HasDefTTL: true, DefTTL: 5, Allowed: true, UseFS: true}, nil)
+		if viol != nil {
+			return fmt.Errorf("%s", strings.SplitN(viol.Error(), "\n", 2)[0])
+		}
+		if hasOwner(out.First, "canary.") {
+			return fmt.Errorf("a real file was read although an include FS is set: %v", out.First)
+		}
+		return nil
+	})
+	pbt.Probe(kNestedInc, func() error {
+		files := extraFiles()
+		files[strings.TrimLeft(nestedFile(), "/")] = nestedBody
+		files["top.db"] = "$GENERATE 1-2 $$INCLUDE " + nestedFile() + "\n"
+		out, viol := runParser(files, parserCfg{File: "top.db", Origin: "example.", HasDefTTL: true, DefTTL: 5, Allowed: true, UseFS: true}, nil)
+		if viol != nil {
+			return fmt.Errorf("%s", strings.SplitN(viol.Error(), "\n", 2)[0])
+		}
+		if hasOwner(out.First, "inner") {
+			return fmt.Errorf("a $GENERATE nested in a $GENERATE through an $INCLUDE was expanded: %d records, err=%v", out.N, out.Err)
 		}
 		return nil
 	})
